@@ -38,12 +38,15 @@ T = rvprog.T
 M32 = 0xFFFFFFFF
 
 
-def _mem_check(sim, ref, addrs, case, where):
+def _mem_check(sim, ref, addrs, case, where, raw=False):
+    """raw: look at the byte cells themselves instead of calling the read API - between the steps of a program the
+    harness must not perform data-memory reads of its own (they would hide state kept between two program reads)."""
+    cells = rvdrive.flat_memory(sim).memory_file if raw else None
     for a in addrs:
         a &= M32
         if ref.mem.classify(a, 1) != "ok":
             continue
-        got = int(sim.state.memory.read_byte(a))
+        got = int(cells.get(a, 0)) if raw else int(sim.state.memory.read_byte(a))
         exp = ref.mem.read(a, 1)
         if got != exp:
             raise Violation("memory-byte", case, f"{where}: byte {a:#x} = {got:#x}, reference {exp:#x}")
@@ -110,7 +113,7 @@ def lockstep(case, sim, ref, max_steps, stats_tags):
             raise Violation("exit-code", case, f"step {n} {e.ins}: exit_code {got_exit!r}, reference {exp_exit!r}")
         if e.store is not None:
             a, w, _ = e.store
-            _mem_check(sim, ref, range(a - 2, a + w + 2), case, f"step {n} {e.ins}")
+            _mem_check(sim, ref, range(a - 2, a + w + 2), case, f"step {n} {e.ins}", raw=True)
             stats_tags.add("store")
         if e.load is not None:
             stats_tags.add("load")
